@@ -5,6 +5,8 @@ import (
 	"go/ast"
 	"go/token"
 	"go/types"
+	"regexp"
+	"sort"
 	"strings"
 
 	"verif/checker/internal/core"
@@ -770,4 +772,598 @@ func ruleBlankFields(c *ctx.Ctx, r *core.Reporter) {
 		return true
 	})
 	r.Check(n >= 1 && good == n, "keyFor:struct:skips-blank", kf.Pos(), fmt.Sprintf("%d of %d field enumerations in the struct keyFor run over the fields filtered by name !== \"_\" (two keys that differ only in a blank field are the same map key)", good, n))
+}
+
+// ruleC11JsTag: a struct tag is a space-separated list of key:"value" pairs (reflect.StructTag). getJsTag
+// consumes one pair per iteration of `for tag != ""`; after a pair the rest begins with the separating
+// space, so the space-skipping step belongs INSIDE the loop, before the key is scanned. Hoisted out of the
+// loop, only the first key is ever recognised: `json:"x" js:"x"` is no js tag any more.
+func ruleC11JsTag(c *ctx.Ctx, r *core.Reporter) {
+	r.Begin("C11.jstag", "F-MUST", "getJsTag skips the separating spaces in every iteration of its pair loop, so that the js key is found at any position of the tag", 1)
+	fd := c.FuncDecl("compiler", "getJsTag")
+	if fd == nil {
+		r.Undecided("getJsTag", "compiler/utils.go", "not found")
+		return
+	}
+	var loop *ast.ForStmt
+	ast.Inspect(fd.Body, func(n ast.Node) bool {
+		if fs, ok := n.(*ast.ForStmt); ok && loop == nil && fs.Init == nil && fs.Post == nil && fs.Cond != nil {
+			if be, ok := fs.Cond.(*ast.BinaryExpr); ok && be.Op == token.NEQ && exprStr(be.Y) == `""` {
+				loop = fs
+			}
+		}
+		return loop == nil
+	})
+	if loop == nil {
+		r.Undecided("pair-loop", c.Pos(fd.Pos()), "no `for tag != \"\"` loop")
+		return
+	}
+	tagVar := exprStr(loop.Cond.(*ast.BinaryExpr).X)
+	// position of the key scan: the first comparison with ':' in the loop
+	keyScan := token.NoPos
+	ast.Inspect(loop.Body, func(n ast.Node) bool {
+		if bl, ok := n.(*ast.BasicLit); ok && bl.Value == `':'` && keyScan == token.NoPos {
+			keyScan = bl.Pos()
+		}
+		return true
+	})
+	skip := token.NoPos
+	for _, m := range findGoPattern(loop.Body, `for µi < len(µt) && µt[µi] == ' ' { µi++ }; µt = µt[µi:]`) {
+		if m.Env["µt"] == tagVar {
+			skip = m.Node.Pos()
+		}
+	}
+	for _, pat := range []string{`µt = strings.TrimLeft(µt, " ")`, `µt = strings.TrimSpace(µt)`, `µt = strings.TrimLeft(µt, " \t")`} {
+		for _, m := range findGoPattern(loop.Body, pat) {
+			if m.Env["µt"] == tagVar && skip == token.NoPos {
+				skip = m.Node.Pos()
+			}
+		}
+	}
+	ok := skip != token.NoPos && keyScan != token.NoPos && skip < keyScan
+	r.Check(ok, "jstag:skip-space-per-pair", c.Pos(loop.Pos()), "inside the pair loop, before the key is scanned up to ':', leading spaces of the remaining tag are dropped (a tag `json:\"x\" js:\"y\"` yields \"y\")")
+}
+
+// ruleC19WriteJSSource: Filter.WriteJS(source, path, …) lets esbuild produce mappings relative to the text it
+// is handed and attributes them to `path`. The text therefore has to be the unmodified content of that
+// file: both arguments are fields of the same file record, and the text is not concatenated with anything.
+func ruleC19WriteJSSource(c *ctx.Ctx, r *core.Reporter) {
+	r.Begin("C19.writejs-source", "F-KEY", "at every call of Filter.WriteJS the source text and the file name are two fields of one file record, the text unmodified (a wrapper around it shifts every mapping into the file)", 2)
+	n := 0
+	for _, rel := range []string{"compiler", "build"} {
+		p := c.Pkg(rel)
+		if p == nil {
+			continue
+		}
+		for _, fd := range c.AllFuncDecls(rel) {
+			if fd.Body == nil || c.IsTestFile(fd.Pos()) {
+				continue
+			}
+			ast.Inspect(fd.Body, func(x ast.Node) bool {
+				ce, ok := x.(*ast.CallExpr)
+				if !ok || len(ce.Args) < 2 {
+					return true
+				}
+				se, ok := ce.Fun.(*ast.SelectorExpr)
+				if !ok || se.Sel.Name != "WriteJS" {
+					return true
+				}
+				if tv, ok := p.TypesInfo.Types[se.X]; !ok || !strings.HasSuffix(tv.Type.String(), "sourcemapx.Filter") {
+					return true
+				}
+				n++
+				src := ast.Unparen(ce.Args[0])
+				// string(X.Content)
+				if conv, ok := src.(*ast.CallExpr); ok && len(conv.Args) == 1 {
+					if id, ok := conv.Fun.(*ast.Ident); ok && id.Name == "string" {
+						src = ast.Unparen(conv.Args[0])
+					}
+				}
+				s1, ok1 := src.(*ast.SelectorExpr)
+				s2, ok2 := ast.Unparen(ce.Args[1]).(*ast.SelectorExpr)
+				good := ok1 && ok2 && exprStr(s1.X) == exprStr(s2.X)
+				if good {
+					if _, isIdent := s1.X.(*ast.Ident); !isIdent {
+						good = false
+					}
+				}
+				r.Check(good, fmt.Sprintf("writejs-source:%s#%d", ctx.FuncName(fd), n), c.Pos(ce.Pos()), fmt.Sprintf("WriteJS(%s, %s, …): the text is the content field and the name the path field of the same file record", exprStr(ce.Args[0]), exprStr(ce.Args[1])))
+				return true
+			})
+		}
+	}
+	r.Check(n >= 2, "sites", "compiler/compiler.go", fmt.Sprintf("%d WriteJS call(s) examined (prelude files and .inc.js files)", n))
+}
+
+// ruleC19FirstLine: mappings esbuild produced for an isolated chunk are shifted to where the chunk lands in
+// the output: lines by the number of lines written so far, and the columns of the chunk's FIRST line by
+// the current column. "First line" is whatever number the decoder of the sourcemap library gives it
+// (decodeMappings starts counting at generatedLine = 1); the test in the callback has to use that number,
+// or the column shift never happens (under -m the wrapper `(function(){` and the whole minified chunk
+// share one line).
+func ruleC19FirstLine(c *ctx.Ctx, r *core.Reporter) {
+	r.Begin("C19.first-line", "F-CONST", "the first-line test of Filter.defaultJSMappingCallback uses the line number the sourcemap decoder assigns to the first generated line", 1)
+	// the decoder's first line
+	first := ""
+	if p := c.All["github.com/neelance/sourcemap"]; p != nil {
+		for _, f := range p.Syntax {
+			for _, d := range f.Decls {
+				fd, ok := d.(*ast.FuncDecl)
+				if !ok || fd.Name.Name != "decodeMappings" || fd.Body == nil {
+					continue
+				}
+				for _, m := range findGoPattern(fd.Body, `var generatedLine = µn`) {
+					first = m.Env["µn"]
+				}
+			}
+		}
+	}
+	if first == "" {
+		r.Undecided("decoder-first-line", "github.com/neelance/sourcemap", "decodeMappings / `var generatedLine = N` not found in the loaded dependency")
+		return
+	}
+	fd := c.FuncDecl("internal/sourcemapx", "Filter.defaultJSMappingCallback")
+	if fd == nil {
+		r.Undecided("defaultJSMappingCallback", "internal/sourcemapx/filter.go", "not found")
+		return
+	}
+	n, good := 0, 0
+	for _, m := range findGoPattern(fd.Body, `if µm.GeneratedLine == µn { µm.GeneratedColumn += µf.column }`) {
+		n++
+		if m.Env["µn"] == first {
+			good++
+		}
+	}
+	r.Check(n >= 1 && good == n, "first-line:matches-decoder", c.Pos(fd.Pos()), fmt.Sprintf("the column of a mapping is shifted by the filter's current column exactly when its GeneratedLine is %s, the decoder's number for the first line (%d of %d tests)", first, good, n))
+}
+
+// ruleC15NaNKeys: a map key is a string derived from the value; two keys are the same entry iff the strings
+// are equal. NaN is never equal to anything, so every floating-point component has to go through $floatKey
+// (which hands out a fresh string per NaN), and the strings of the components must stay strings: collected
+// in a typed array (what `new x.constructor(n)` gives for a [n]float64) "NaN$7" is coerced back to NaN.
+func ruleC15NaNKeys(c *ctx.Ctx, r *core.Reporter) {
+	r.Begin("C15.nan-keys", "F-MUST", "the keyFor of complex kinds passes both parts through $floatKey, and the keyFor of arrays collects the element keys in a plain Array (not in a container constructed from the array value's own constructor)", 3)
+	if !needPrelude(c, r) {
+		return
+	}
+	nt := c.PreludeFunc("$newType")
+	if nt == nil {
+		r.Undecided("$newType", "compiler/prelude/types.js", "not found")
+		return
+	}
+	arms := switchArmsByDiscriminant(nt, "kind")
+	for _, k := range []string{"$kindComplex64", "$kindComplex128"} {
+		arm := arms[k]
+		if arm == nil {
+			r.Undecided("nan:"+k, nt.Pos(), "no arm")
+			continue
+		}
+		kf := assignsMember(arm, "keyFor")
+		if kf == nil {
+			r.Undecided("nan:"+k, arm.Pos(), "no keyFor")
+			continue
+		}
+		parts, wrapped := 0, 0
+		kf.N("right").Walk(func(x *ctx.JSNode) bool {
+			if x.Is("MemberExpression") && (x.MemberName() == "$real" || x.MemberName() == "$imag") {
+				parts++
+				if p := x.Parent; p != nil && p.Is("CallExpression") && p.N("callee").IdentName() == "$floatKey" {
+					wrapped++
+				}
+			}
+			return true
+		})
+		r.Check(parts >= 2 && wrapped == parts, "nan:"+k, kf.Pos(), fmt.Sprintf("%d of %d reads of $real/$imag in the keyFor of %s are arguments of $floatKey (complex(NaN, 0) is a fresh key on every store)", wrapped, parts, k))
+	}
+	if arm := arms["$kindArray"]; arm == nil {
+		r.Undecided("nan:$kindArray", nt.Pos(), "no arm")
+	} else if kf := assignsMember(arm, "keyFor"); kf == nil {
+		r.Undecided("nan:$kindArray", arm.Pos(), "no keyFor")
+	} else {
+		fn := kf.N("right")
+		param := ""
+		if ps := fn.L("params"); len(ps) > 0 {
+			param = ps[0].IdentName()
+		}
+		bad := ""
+		fn.Walk(func(x *ctx.JSNode) bool {
+			if x.Is("CallExpression") && x.N("callee").IdentName() == "$mapArray" && len(x.L("arguments")) >= 1 && x.L("arguments")[0].IdentName() == param {
+				bad = squash(x.N("callee").Src()) + "(" + param + ", …)"
+			}
+			if x.Is("NewExpression") && strings.Contains(x.N("callee").Src(), ".constructor") {
+				bad = squash(x.N("callee").Src())
+			}
+			return true
+		})
+		r.Check(param != "" && bad == "", "nan:$kindArray:keys-stay-strings", kf.Pos(), "the element keys of an array key are collected in a plain Array"+ternary(bad != "", " (found "+bad+": $mapArray builds `new array.constructor(n)`, a Float64Array for [n]float64, which turns \"NaN$<id>\" back into NaN)", ""))
+	}
+}
+
+// ruleLabelNamespace: Go labels are emitted as JavaScript labels. The compiler has a label of its own in
+// that namespace — the dispatch loop of a flattened function, `s: while (true) { switch ($s) {` — so a Go
+// label of the same name nested in it is a duplicate-label SyntaxError when the file is loaded. Every
+// site that turns a Go label into a JavaScript label has to go through a function that moves the
+// compiler's own label names out of the way.
+func ruleLabelNamespace(c *ctx.Ctx, r *core.Reporter) {
+	r.Begin("C02.labels", "F-LINK", "every Go label name reaches the output through a helper that renames the labels the compiler itself emits (the dispatch loop's `s`)", 5)
+	p := c.Pkg("compiler")
+	if p == nil {
+		r.Undecided("pkg", "compiler", "not loaded")
+		return
+	}
+	// the compiler's own labels: `<name>: while|for|switch` in a template
+	own := map[string]bool{}
+	re := ownLabelRe
+	for _, t := range usableTemplates(c) {
+		for _, m := range re.FindAllStringSubmatch(t.Text, -1) {
+			own[m[1]] = true
+		}
+	}
+	if len(own) == 0 {
+		r.Undecided("own-labels", "compiler", "no template defines a label (the dispatch loop `s: while (true)` was expected)")
+		return
+	}
+	var owns []string
+	for k := range own {
+		owns = append(owns, k)
+	}
+	sortStrings(owns)
+	info := p.TypesInfo
+	isLabelName := func(e ast.Expr) bool {
+		switch x := ast.Unparen(e).(type) {
+		case *ast.SelectorExpr: // s.Label.Name
+			if x.Sel.Name != "Name" {
+				return false
+			}
+			if in, ok := x.X.(*ast.SelectorExpr); ok && in.Sel.Name == "Label" {
+				return true
+			}
+		case *ast.CallExpr: // label.Name()
+			if se, ok := x.Fun.(*ast.SelectorExpr); ok && se.Sel.Name == "Name" && len(x.Args) == 0 {
+				if tv, ok := info.Types[se.X]; ok && strings.HasSuffix(tv.Type.String(), "types.Label") {
+					return true
+				}
+			}
+		}
+		return false
+	}
+	handles := map[string]bool{}
+	handlesOwn := func(name string) bool {
+		if v, ok := handles[name]; ok {
+			return v
+		}
+		fd := c.FuncDecl("compiler", name)
+		ok := fd != nil && fd.Body != nil
+		if ok {
+			for _, l := range owns {
+				found := false
+				ast.Inspect(fd.Body, func(n ast.Node) bool {
+					if bl, isLit := n.(*ast.BasicLit); isLit && (bl.Value == `"`+l+`"` || bl.Value == "`"+l+"`") {
+						found = true
+					}
+					return true
+				})
+				if !found {
+					ok = false
+				}
+			}
+		}
+		handles[name] = ok
+		return ok
+	}
+	n := 0
+	for _, fd := range c.AllFuncDecls("compiler") {
+		if fd.Body == nil || c.IsTestFile(fd.Pos()) {
+			continue
+		}
+		ast.Inspect(fd.Body, func(x ast.Node) bool {
+			ce, ok := x.(*ast.CallExpr)
+			if !ok || len(ce.Args) != 1 || !isLabelName(ce.Args[0]) {
+				return true
+			}
+			name := ""
+			switch f := ce.Fun.(type) {
+			case *ast.Ident:
+				name = f.Name
+			case *ast.SelectorExpr:
+				name = f.Sel.Name
+			}
+			n++
+			r.Check(handlesOwn(name), fmt.Sprintf("label-site:%s#%d", ctx.FuncName(fd), n), c.Pos(ce.Pos()), fmt.Sprintf("`%s`: the Go label goes through %s, which %s the compiler's own label(s) %v", exprStr(ce), name, ternary(handlesOwn(name), "tells apart", "does not know"), owns))
+			return true
+		})
+	}
+	r.Check(n >= 5, "sites", "compiler/statements.go", fmt.Sprintf("%d sites turn a Go label into a JavaScript label", n))
+}
+
+var ownLabelRe = regexp.MustCompile(`(?:^|[\s;{}])([A-Za-z_$][A-Za-z0-9_$]*): (?:while|for|switch|do)\b`)
+
+func sortStrings(s []string) { sort.Strings(s) }
+
+// ruleCommentHoles: text the compiler puts between `/*` and `*/` in its output ends the comment wherever it
+// contains `*/` itself. Go-derived strings can: a type argument's printed form includes struct tags
+// verbatim. So (1) a comment is opened and closed inside one template — never by handing the delimiters
+// to another function that pastes unknown text between them — and (2) every string hole inside a comment
+// is fed through strings.ReplaceAll(x, "*/", …).
+func ruleCommentHoles(c *ctx.Ctx, r *core.Reporter) {
+	r.Begin("C01.comment-holes", "F-LINK", "every `/*` the compiler emits is closed in the same string literal, and every non-numeric hole between the delimiters is sanitised with strings.ReplaceAll(…, \"*/\", …)", 4)
+	n := 0
+	for _, rel := range []string{"compiler", "compiler/internal/typeparams"} {
+		p := c.Pkg(rel)
+		if p == nil {
+			continue
+		}
+		for _, f := range p.Syntax {
+			if c.IsTestFile(f.Pos()) {
+				continue
+			}
+			ast.Inspect(f, func(x ast.Node) bool {
+				bl, ok := x.(*ast.BasicLit)
+				if !ok || bl.Kind != token.STRING || !strings.Contains(bl.Value, "/*") {
+					return true
+				}
+				v := bl.Value
+				// regular expressions and the comment scanner of the minifier are not output
+				if strings.Contains(v, `\/\*`) {
+					return true
+				}
+				n++
+				opens, closes := strings.Count(v, "/*"), strings.Count(v, "*/")
+				r.Check(opens == closes && strings.Index(v, "/*") < strings.LastIndex(v, "*/"), fmt.Sprintf("closed-in-place:%s#%d", rel, n), c.Pos(bl.Pos()), fmt.Sprintf("the literal %s opens %d comment(s) and closes %d: text pasted between delimiters that travel separately cannot be checked for `*/`", v, opens, closes))
+				return true
+			})
+		}
+	}
+	isSanitised := func(fd *ast.FuncDecl, e ast.Expr) bool {
+		pred := func(ce *ast.CallExpr) bool {
+			se, ok := ce.Fun.(*ast.SelectorExpr)
+			if !ok || se.Sel.Name != "ReplaceAll" || len(ce.Args) != 3 {
+				return false
+			}
+			return exprStr(ce.Args[1]) == `"*/"`
+		}
+		if ce, ok := ast.Unparen(e).(*ast.CallExpr); ok && pred(ce) {
+			return true
+		}
+		if id, ok := ast.Unparen(e).(*ast.Ident); ok && fd != nil {
+			defs := localAssignments(fd, id.Name)
+			if len(defs) == 0 {
+				return false
+			}
+			for _, d := range defs {
+				ce, ok := ast.Unparen(d.rhs).(*ast.CallExpr)
+				if !ok || !pred(ce) {
+					return false
+				}
+			}
+			return true
+		}
+		return false
+	}
+	m := 0
+	for _, t := range usableTemplates(c) {
+		for _, mm := range commentHoleRe.FindAllStringSubmatch(t.Text, -1) {
+			for _, hm := range holeNumRe.FindAllStringSubmatch(mm[1], -1) {
+				var hi int
+				fmt.Sscanf(hm[1], "%d", &hi)
+				if hi >= len(t.Holes) {
+					continue
+				}
+				h := t.Holes[hi]
+				m++
+				if h.Verb == 'd' {
+					continue
+				}
+				args := t.FmtArgs()
+				ok := false
+				if h.Index >= 0 && h.Index < len(args) {
+					var fd *ast.FuncDecl
+					for _, cand := range c.AllFuncDecls("compiler") {
+						if cand.Pos() <= t.Pos && t.Pos < cand.End() {
+							fd = cand
+						}
+					}
+					ok = isSanitised(fd, args[h.Index])
+				}
+				r.Check(ok, fmt.Sprintf("sanitised:%s#%d", t.Func, m), c.Pos(t.Pos), fmt.Sprintf("hole %d of `%s` lies inside a comment and is fed through strings.ReplaceAll(…, \"*/\", …)", hi, t.Text))
+			}
+		}
+	}
+	r.Check(n >= 3, "literals", "compiler", fmt.Sprintf("%d literals with comment delimiters, %d holes inside comments examined", n, m))
+}
+
+var (
+	commentHoleRe = regexp.MustCompile(`/\*(.*?)\*/`)
+	holeNumRe     = regexp.MustCompile(`⟨(\d+)⟩`)
+)
+
+// ruleOwnMethods: a constructor's `prototype` object inherits from Object.prototype, so
+// `T.prototype[name] !== undefined` is true for toString, valueOf, hasOwnProperty, … whether or not the Go
+// type has such a method. A presence test keyed by a Go method name has to be an own-property test.
+func ruleOwnMethods(c *ctx.Ctx, r *core.Reporter) {
+	r.Begin("C09.own-methods", "F-LINK", "every presence test of a computed member of a prototype object in the prelude (is the method already there?) is an own-property test", 1)
+	if !needPrelude(c, r) {
+		return
+	}
+	n := 0
+	for _, f := range c.PreludeList() {
+		f.AST.Walk(func(x *ctx.JSNode) bool {
+			// <obj>.prototype[<computed>]
+			if !(x.Is("MemberExpression") && x.B("computed") && x.N("object").MemberName() == "prototype") {
+				return true
+			}
+			p := x.Parent
+			if p == nil {
+				return true
+			}
+			presence := false
+			switch {
+			case p.Is("BinaryExpression") && (p.S("operator") == "!==" || p.S("operator") == "===" || p.S("operator") == "!=" || p.S("operator") == "=="):
+				o := p.N("left")
+				if o == x {
+					o = p.N("right")
+				}
+				presence = o.IdentName() == "undefined" || o.Src() == "null"
+			case p.Is("UnaryExpression") && p.S("operator") == "!":
+				presence = true
+			case p.Is("IfStatement") && p.N("test") == x:
+				presence = true
+			}
+			if !presence {
+				return true
+			}
+			n++
+			r.Violation(fmt.Sprintf("own-test:%s#%d", f.Name, n), x.Pos(), fmt.Sprintf("`%s` tests the presence of a member by reading it through the prototype chain: for a Go method named toString / valueOf / hasOwnProperty the answer is always `present` (Object.prototype), so the forwarding method of a promoted method is never installed", squash(p.Src())))
+			return true
+		})
+		f.AST.Walk(func(x *ctx.JSNode) bool {
+			// Object.prototype.hasOwnProperty.call(<obj>.prototype, k) / Object.hasOwn(<obj>.prototype, k)
+			if x.Is("CallExpression") && len(x.L("arguments")) == 2 && x.L("arguments")[0].MemberName() == "prototype" {
+				cal := squash(x.N("callee").Src())
+				if cal == "Object.prototype.hasOwnProperty.call" || cal == "Object.hasOwn" {
+					n++
+					r.Check(true, fmt.Sprintf("own-test:%s#%d", f.Name, n), x.Pos(), "own-property presence test: "+squash(x.Src()))
+				}
+			}
+			return true
+		})
+	}
+	r.Check(n >= 1, "sites", "compiler/prelude/types.js", fmt.Sprintf("%d presence test(s) on prototype objects found (the method synthesizer's was expected)", n))
+}
+
+// ruleOwnKeys: an object literal `{}` used as a table inherits Object.prototype, so table["toString"],
+// table["valueOf"], table["constructor"] … are "present" before anything was stored. A table whose keys are
+// Go names (method names) must be created without a prototype (Object.create(null)) — or the key must
+// carry a prefix / be built from type ids, which no inherited member name matches.
+func ruleOwnKeys(c *ctx.Ctx, r *core.Reporter) {
+	r.Begin("C09.own-keys", "F-LINK", "every table of the prelude that starts as `{}` and is probed with a computed key (`t[k] === undefined`) is keyed by something that cannot be an Object.prototype member name (a type id, a literal prefix), or starts as Object.create(null)", 4)
+	if !needPrelude(c, r) {
+		return
+	}
+	n := 0
+	for _, f := range c.PreludeList() {
+		// tables: name -> created how ("{}" / "null-proto"), per enclosing function (nil = top level)
+		type key struct {
+			fn   *ctx.JSNode
+			name string
+		}
+		tables := map[key]string{}
+		kindOf := func(init *ctx.JSNode) string {
+			if init == nil {
+				return ""
+			}
+			if init.Is("LogicalExpression") {
+				init = init.N("right")
+			}
+			if init.Is("ObjectExpression") && len(init.L("properties")) == 0 {
+				return "{}"
+			}
+			if init.Is("CallExpression") && squash(init.N("callee").Src()) == "Object.create" && len(init.L("arguments")) == 1 && init.L("arguments")[0].Src() == "null" {
+				return "null-proto"
+			}
+			return ""
+		}
+		inits := map[key]*ctx.JSNode{}
+		f.AST.Walk(func(x *ctx.JSNode) bool {
+			if x.Is("VariableDeclarator") && x.N("id").Is("Identifier") {
+				k := key{x.EnclosingFunc(), x.N("id").IdentName()}
+				inits[k] = x.N("init")
+				if kd := kindOf(x.N("init")); kd != "" {
+					tables[k] = kd
+				}
+			}
+			return true
+		})
+		lookup := func(x *ctx.JSNode, name string) (string, bool) {
+			for fn := x.EnclosingFunc(); ; fn = fn.EnclosingFunc() {
+				if kd, ok := tables[key{fn, name}]; ok {
+					return kd, true
+				}
+				if fn == nil {
+					return "", false
+				}
+			}
+		}
+		initOf := func(x *ctx.JSNode, name string) *ctx.JSNode {
+			for fn := x.EnclosingFunc(); ; fn = fn.EnclosingFunc() {
+				if in, ok := inits[key{fn, name}]; ok {
+					return in
+				}
+				if fn == nil {
+					return nil
+				}
+			}
+		}
+		safeKey := func(x, k *ctx.JSNode) bool {
+			for depth := 0; depth < 3 && k != nil; depth++ {
+				src := k.Src()
+				if k.MemberName() == "id" || strings.Contains(src, ".id") {
+					return true
+				}
+				if k.Is("BinaryExpression") && k.S("operator") == "+" {
+					if _, ok := k.N("left").StrValue(); ok {
+						return true
+					}
+				}
+				if _, ok := k.NumValue(); ok {
+					return true
+				}
+				if k.Is("Identifier") {
+					k = initOf(x, k.IdentName())
+					continue
+				}
+				break
+			}
+			return false
+		}
+		comparedWithUndefined := func(fn *ctx.JSNode, name string) bool {
+			found := false
+			if fn == nil {
+				return false
+			}
+			fn.Walk(func(y *ctx.JSNode) bool {
+				if y.Is("BinaryExpression") && strings.Contains(y.S("operator"), "==") {
+					l, rr := y.N("left"), y.N("right")
+					if (l.IdentName() == name && rr.IdentName() == "undefined") || (rr.IdentName() == name && l.IdentName() == "undefined") {
+						found = true
+					}
+				}
+				return true
+			})
+			return found
+		}
+		f.AST.Walk(func(x *ctx.JSNode) bool {
+			if !(x.Is("MemberExpression") && x.B("computed") && x.N("object").Is("Identifier")) {
+				return true
+			}
+			kd, ok := lookup(x, x.N("object").IdentName())
+			if !ok {
+				return true
+			}
+			p := x.Parent
+			presence := false
+			switch {
+			case p.Is("BinaryExpression") && strings.Contains(p.S("operator"), "=="):
+				o := p.N("left")
+				if o == x {
+					o = p.N("right")
+				}
+				presence = o.IdentName() == "undefined"
+			case p.Is("VariableDeclarator") && p.N("init") == x:
+				presence = comparedWithUndefined(x.EnclosingFunc(), p.N("id").IdentName())
+			case p.Is("AssignmentExpression") && p.N("right") == x && p.N("left").Is("Identifier"):
+				presence = comparedWithUndefined(x.EnclosingFunc(), p.N("left").IdentName())
+			case p.Is("UnaryExpression") && p.S("operator") == "!", p.Is("IfStatement") && p.N("test") == x:
+				presence = true
+			}
+			if !presence {
+				return true
+			}
+			n++
+			good := kd == "null-proto" || safeKey(x, x.N("property"))
+			r.Check(good, fmt.Sprintf("own-key:%s:%s[%s]", strings.TrimPrefix(f.Name, "compiler/prelude/"), x.N("object").IdentName(), squash(x.N("property").Src())), x.Pos(), fmt.Sprintf("`%s` probes a table created as %s with the key `%s`%s", squash(x.Src()), kd, squash(x.N("property").Src()), ternary(good, "", ": a Go method named toString, valueOf, hasOwnProperty, constructor… finds Object.prototype's member there")))
+			return true
+		})
+	}
+	r.Check(n >= 4, "sites", "compiler/prelude", fmt.Sprintf("%d probes of `{}`-tables with computed keys examined", n))
 }
